@@ -62,6 +62,7 @@ type Loc struct {
 }
 
 type Frame struct {
+	fieldFnOwner map[ssa.Value]ssa.Value // call value (load of x.f) -> x, for function-valued fields under contract
 	fn       *ssa.Function
 	vals     map[ssa.Value]TV
 	tuples   map[ssa.Value][]TV
